@@ -1086,10 +1086,11 @@ def c07_mirror_pairs(ctx, rule):
 
 
 # ------------------------------------------------------------------------------------------------ notebooks written to stdout stay the same notebook
-@extra('C08', 'R08.11', 'the error handler installed on stdout (where nbmerge writes the merged notebook when no --out is given) is backslashreplace: an unencodable character '
-       'becomes a \\\\uXXXX escape that JSON reads back as the same character; replace/ignore/xmlcharrefreplace would write a DIFFERENT notebook with exit status 0', 1)
+@extra('C08', 'R08.11', 'the merged notebook printed to stdout (no --out) is well-formed JSON whatever the encoding of the stream: it is serialised ASCII-only unless the '
+       'stream takes UTF-8; the error handler installed on the stream (backslashreplace) is then reached only by lone surrogates, for which it writes a JSON escape '
+       '(for other characters it would write \\xNN / \\UNNNNNNNN, which JSON does not have)', 2)
 def stdout_handler_is_json_lossless(ctx, rule):
-    repo = ctx.repo
+    repo, cg = ctx.repo, ctx.cg
     fid = 'nbdime.utils:_setup_std_stream_encoding'
     fn = repo.func(fid)
     sites = []
@@ -1102,9 +1103,96 @@ def stdout_handler_is_json_lossless(ctx, rule):
     for c, h in sites:
         ok = h == 'backslashreplace'
         ctx.inst(rule, fid, repo.norm(c)[:90], ok,
-                 'escapes are valid JSON string escapes for every character JSON text can hold unencoded' if ok else
-                 'errors=%r: an unencodable character (a lone surrogate under UTF-8, any non-Latin text under a legacy locale) is written as %s -- well-formed JSON, exit 0, '
-                 'but not the notebook the library merge returned' % (h, {'replace': '"?"', 'ignore': 'nothing', 'xmlcharrefreplace': '"&#NNNN;"', 'namereplace': '"\\\\N{...}"'}.get(h, 'something else')), c)
+                 'a lone surrogate becomes a \\udXXX escape, which JSON reads back' if ok else
+                 'errors=%r: an unencodable character is written as %s -- well-formed JSON, exit 0, '
+                 'but not the notebook the library merge returned' % (h, {'replace': '"?"', 'ignore': 'nothing', 'xmlcharrefreplace': '"&#NNNN;"', 'namereplace': '"\\N{...}"'}.get(h, 'something else')), c)
+    mm = repo.func('nbdime.nbmergeapp:main_merge')
+    from ..util import local_defs
+    defs = local_defs(mm)
+    outs = [c for c in calls_in(mm, nested=False) if any(dotted(a) == 'sys.stdout' for a in c.args) and
+            (({t[1] for t in cg.resolve(c.func, mm) if t[0] == 'ext'} | {dotted(c.func) or ''}) & {'nbformat.write', 'json.dump'})]
+    outs += [c for c in calls_in(mm, nested=False) if dotted(c.func) == 'sys.stdout.write']
+    if not outs:
+        raise AnalysisError('main_merge: the call that prints the merged notebook to stdout was not found')
+    for c in outs:
+        ser = c
+        if dotted(c.func) == 'sys.stdout.write' and c.args:
+            inner = [x for x in ast.walk(c.args[0]) if isinstance(x, ast.Call) and (dotted(x.func) or '').split('.')[-1] in ('writes', 'dumps')]
+            if isinstance(c.args[0], ast.Name):
+                for v, k, st in defs.get(c.args[0].id, []):
+                    inner += [x for x in ast.walk(v) if isinstance(x, ast.Call) and (dotted(x.func) or '').split('.')[-1] in ('writes', 'dumps')]
+            if not inner:
+                continue
+            ser = inner[0]
+        ea = next((k.value for k in ser.keywords if k.arg == 'ensure_ascii'), None)
+        is_json_dump = (dotted(ser.func) or '').split('.')[-1] in ('dump', 'dumps') and (dotted(ser.func) or '').startswith('json')
+        if ea is None:
+            ok = is_json_dump          # json's own default is ASCII-only; nbformat's is not
+        elif isinstance(ea, ast.Constant):
+            ok = ea.value is True
+        else:
+            # decided at run time: must look at the encoding of the stream
+            src = [ea] + [v for x in ast.walk(ea) if isinstance(x, ast.Name) for v, k, st in defs.get(x.id, [])]
+            ok = any(isinstance(y, ast.Constant) and y.value == 'encoding' or isinstance(y, ast.Attribute) and y.attr == 'encoding' for e in src for y in ast.walk(e))
+        ctx.inst(rule, 'nbdime.nbmergeapp:main_merge', repo.norm(c)[:90], ok,
+                 'non-ASCII text is written as \\uXXXX escapes unless the stream is UTF-8' if ok else
+                 'the notebook is serialised with non-ASCII characters as they are: under a stream that is not UTF-8 (LC_ALL=C, latin-1, cp1252) the error handler turns them '
+                 'into \\xNN / \\UNNNNNNNN, which are not JSON escapes -- exit 0, output not well-formed JSON', c)
+
+
+@extra('C08', 'R08.16', 'the output file is opened for writing only when the complete content exists (as bytes, or as ASCII-only text): serialising or encoding after the open '
+       'can fail with the file already truncated -- an earlier result, or for the git driver the user\'s own file, is gone although the run reports failure', 2)
+def r08_16(ctx, rule):
+    from ..util import local_defs
+    repo, cg = ctx.repo, ctx.cg
+    fid = 'nbdime.nbmergeapp:main_merge'
+    fn = repo.func(fid)
+    defs = local_defs(fn)
+    outvar = None
+    for nm, ds in defs.items():
+        if any(isinstance(v, ast.Attribute) and v.attr == 'out' for v, k, st in ds):
+            outvar = nm
+    if outvar is None:
+        raise AnalysisError('main_merge: the local holding args.out was not found')
+    n = 0
+    # a helper that is handed the output path does the writing: judge it with the path parameter in the role of the output
+    work = [(fn, fid, outvar, defs)]
+    for c in calls_in(fn, nested=False):
+        for i, a in enumerate(c.args):
+            if dotted(a) == outvar:
+                for t in cg.resolve(c.func, fn):
+                    if t[0] == 'func' and t[1] in repo.functions and t[1].startswith('nbdime.'):
+                        h = repo.functions[t[1]]
+                        if i < len(h.args.args):
+                            work.append((h, t[1], h.args.args[i].arg, local_defs(h)))
+    for fn, fid, outvar, defs in work:
+        for c in calls_in(fn, nested=False):
+            names = {t[1] for t in cg.resolve(c.func, fn) if t[0] == 'ext'} | {dotted(c.func) or ''}
+            # serialise-and-write in one call, given the path
+            if names & {'nbformat.write', 'json.dump'} and any(dotted(a) == outvar for a in c.args):
+                n += 1
+                ctx.inst(rule, fid, repo.norm(c), False,
+                         'this call opens %s and only then serialises and encodes: a value that cannot be serialised / encoded (a lone surrogate in a source string) raises after '
+                         'the file was truncated to 0 bytes' % outvar, c)
+            if dotted(c.func) in ('open', 'io.open', 'codecs.open') and c.args and dotted(c.args[0]) == outvar:
+                mode = const_val(c.args[1]) if len(c.args) > 1 else next((const_val(k.value) for k in c.keywords if k.arg == 'mode'), 'r')
+                if not (isinstance(mode, str) and any(ch in mode for ch in 'wax+')):
+                    continue
+                n += 1
+                w = repo.stmt_of(c)
+                body_calls = [x for st in getattr(w, 'body', []) for x in ast.walk(st) if isinstance(x, ast.Call)]
+                late = [x for x in body_calls if not (isinstance(x.func, ast.Attribute) and x.func.attr == 'write' and len(x.args) == 1 and
+                                                       isinstance(x.args[0], (ast.Name, ast.Constant)))]
+                binary = 'b' in mode
+                # text mode: what is written must be ASCII-only (json.dumps default) or the open must be binary with pre-encoded bytes
+                ok = not late and (binary or all(
+                    isinstance(x.args[0], ast.Constant) or any(isinstance(y, ast.Call) and dotted(y.func) in ('json.dumps',) and not any(k.arg == 'ensure_ascii' for k in y.keywords)
+                                                               for v, k_, st_ in defs.get(x.args[0].id, []) for y in ast.walk(v)) for x in body_calls))
+                ctx.inst(rule, fid, repo.norm(c), ok, 'only ready-made content is written inside the with block' if ok else
+                         'inside the block that holds %s open, %s still has to serialise or encode: if that fails the file is already truncated' % (
+                             outvar, repo.norm(late[0])[:60] if late else 'the text-mode write'), (late or [c])[0])
+    if n == 0:
+        raise AnalysisError('main_merge: no write to the output file found')
 
 
 # ------------------------------------------------------------------------------------------------ output alignment does not look at ignorable fields
@@ -3490,15 +3578,37 @@ def r05_13(ctx, rule):
 def _r_output_utf8(ctx, rule):
     repo = ctx.repo
     n = 0
-    for fid in ('nbdime.nbmergeapp:main_merge', 'nbdime.webapp.nbdimeserver:ApiMergeStoreHandler.post'):
+    from ..util import local_defs
+    is_utf8 = lambda v: isinstance(v, str) and v.lower().replace('-', '').replace('_', '') == 'utf8'
+    fids = [f for f in repo.functions if f.startswith('nbdime.nbmergeapp:')] + ['nbdime.webapp.nbdimeserver:ApiMergeStoreHandler.post']
+    for fid in sorted(fids):
         fn = repo.functions.get(fid)
         if fn is None:
             continue
+        defs = local_defs(fn)
         for c in calls_in(fn, nested=False):
             if dotted(c.func) not in ('open', 'io.open', 'codecs.open'):
                 continue
             mode = const_val(c.args[1]) if len(c.args) > 1 else next((const_val(k.value) for k in c.keywords if k.arg == 'mode'), 'r')
-            if not (isinstance(mode, str) and any(ch in mode for ch in 'wax+')) or 'b' in str(mode):
+            if not (isinstance(mode, str) and any(ch in mode for ch in 'wax+')):
+                continue
+            if 'b' in str(mode):
+                # binary: the bytes written must come from an explicit UTF-8 encode
+                n += 1
+                w = repo.stmt_of(c)
+                writes = [x for st in getattr(w, 'body', []) for x in ast.walk(st) if isinstance(x, ast.Call) and isinstance(x.func, ast.Attribute) and x.func.attr == 'write' and x.args]
+                def enc_ok(e, seen=()):
+                    for y in ast.walk(e):
+                        if isinstance(y, ast.Call) and isinstance(y.func, ast.Attribute) and y.func.attr == 'encode':
+                            a0 = const_val(y.args[0]) if y.args else next((const_val(k.value) for k in y.keywords if k.arg == 'encoding'), 'utf8')
+                            return is_utf8(a0)
+                    if isinstance(e, ast.Name) and e.id not in seen:
+                        ds = defs.get(e.id, [])
+                        return bool(ds) and all(enc_ok(v, seen + (e.id,)) for v, k, st in ds)
+                    return False
+                ok = bool(writes) and all(enc_ok(x.args[0]) for x in writes)
+                ctx.inst(rule, fid, repo.norm(c), ok, 'bytes encoded as UTF-8 explicitly' if ok else
+                         'binary write of content that is not visibly UTF-8 encoded', c)
                 continue
             n += 1
             enc = next((const_val(k.value) for k in c.keywords if k.arg == 'encoding'), const_val(c.args[3]) if len(c.args) > 3 else None)
